@@ -197,6 +197,60 @@ V_tcas_operational(e) ==
 V_tcas_ra(e) == T29(e, 0, IF IsBool(e.res, MEBit(e.frame, 53) = 1) THEN "ok" ELSE "tcas_ra_value", "tcas_ra_guard")
 V_emergency_status(e) == T29(e, 0, IF IsInt(e.res, MEField(e.frame, 54, 56)) THEN "ok" ELSE "emergency_status_value", "emergency_status_guard")
 
+(* ---- the library's uncertainty tables as a MODEL (transcribed from decoder/uncertainty.py at the pinned commit).   ---- *)
+(* The property does not state the numeric radii, so a difference is reported as MODEL-DRIFT, never as a violation.   *)
+NAv == -1
+NUCpOfTC(tc) == CASE tc \in {5, 9, 20} -> 9 [] tc \in {6, 10, 21} -> 8 [] tc \in {7, 11} -> 7 [] tc \in {8, 12} -> 6 [] tc = 13 -> 5
+                  [] tc = 14 -> 4 [] tc = 15 -> 3 [] tc = 16 -> 2 [] tc = 17 -> 1 [] OTHER -> 0
+\* <<HPL x 2, RCu>>
+NUCpRow(n) == CASE n = 9 -> <<15, 3>> [] n = 8 -> <<50, 10>> [] n = 7 -> <<370, 93>> [] n = 6 -> <<740, 185>> [] n = 5 -> <<1852, 463>>
+                [] n = 4 -> <<3704, 926>> [] n = 3 -> <<7408, 1852>> [] n = 2 -> <<37040, 9260>> [] n = 1 -> <<74080, 18520>> [] OTHER -> <<NAv, NAv>>
+QOrNone(r, num, den) == IF num = NAv THEN IsNone(r) ELSE NumEq(r, num, den)
+ModelNucP(e) ==
+  LET tc == TypeCode(e.frame)  n == NUCpOfTC(tc)  row == NUCpRow(n)  r == e.res.v IN
+  IsInt(r[1], n) /\ QOrNone(r[2], row[1], 2) /\ QOrNone(r[3], row[2], 1)
+  /\ QOrNone(r[4], IF tc = 20 THEN 4 ELSE IF tc = 21 THEN 15 ELSE NAv, 1)
+
+\* NIC (version 1 / 2) by type code and supplement, -1 = no entry
+NICv1OfTC(tc, s) == CASE tc \in {5, 9, 20} -> 11 [] tc \in {6, 10, 21} -> 10 [] tc = 7 -> 9 [] tc \in {8, 18, 22} -> 0 [] tc = 11 -> (IF s = 1 THEN 9 ELSE 8)
+                      [] tc = 12 -> 7 [] tc = 13 -> 6 [] tc = 14 -> 5 [] tc = 15 -> 4 [] tc = 16 -> (IF s = 1 THEN 3 ELSE 2) [] tc = 17 -> 1 [] OTHER -> -1
+\* <<Rc x 2, VPL x 2>> for (NIC, supplement), <<-1,-1>> where the table has no row
+NICv1Row(n, s) == CASE n = 11 /\ s = 0 -> <<15, 22>> [] n = 10 /\ s = 0 -> <<50, 75>> [] n = 9 /\ s = 1 -> <<150, 224>> [] n = 8 /\ s = 0 -> <<370, NAv>>
+                    [] n = 7 /\ s = 0 -> <<740, NAv>> [] n = 6 /\ s = 0 -> <<1852, NAv>> [] n = 6 /\ s = 1 -> <<2222, NAv>> [] n = 5 /\ s = 0 -> <<3704, NAv>>
+                    [] n = 4 /\ s = 0 -> <<7404, NAv>> [] n = 3 /\ s = 1 -> <<14816, NAv>> [] n = 2 /\ s = 0 -> <<28016, NAv>> [] n = 1 /\ s = 0 -> <<74000, NAv>>
+                    [] OTHER -> <<NAv, NAv>>
+ModelNicV1(e) ==
+  LET n == NICv1OfTC(TypeCode(e.frame), e.nics)  row == NICv1Row(n, e.nics)  r == e.res.v IN
+  IsInt(r[1], n) /\ QOrNone(r[2], row[1], 2) /\ QOrNone(r[3], row[2], 2)
+
+NICv2OfTC(tc, s) == CASE tc \in {5, 9, 20} -> 11 [] tc \in {6, 10, 21} -> 10 [] tc = 7 -> (IF s = 2 THEN 9 ELSE IF s = 0 THEN 8 ELSE -1)
+                      [] tc = 8 -> (IF s = 3 THEN 7 ELSE IF s \in {1, 2} THEN 6 ELSE 0) [] tc = 11 -> (IF s = 3 THEN 9 ELSE IF s = 0 THEN 8 ELSE -1)
+                      [] tc = 12 -> 7 [] tc = 13 -> 6 [] tc = 14 -> 5 [] tc = 15 -> 4 [] tc = 16 -> (IF s = 3 THEN 3 ELSE IF s = 0 THEN 2 ELSE -1)
+                      [] tc = 17 -> 1 [] tc \in {18, 22} -> 0 [] OTHER -> -1
+\* Rc x 2, -1 = no row (the function then returns (None, None)), -2 = row with Rc = NA
+NICv2Rc(n, s) == CASE n = 11 /\ s = 0 -> 15 [] n = 10 /\ s = 0 -> 50 [] n = 9 /\ s \in {2, 3} -> 150 [] n = 8 /\ s = 0 -> 370 [] n = 7 /\ s \in {0, 3} -> 740
+                   [] n = 6 /\ s = 0 -> 1852 [] n = 6 /\ s \in {1, 2} -> 1112 [] n = 6 /\ s = 3 -> 2222 [] n = 5 /\ s = 0 -> 3704 [] n = 4 /\ s = 0 -> 7404
+                   [] n = 3 /\ s = 3 -> 14816 [] n = 2 /\ s = 0 -> 28016 [] n = 1 /\ s = 0 -> 74000 [] n = 0 /\ s = 0 -> -2 [] OTHER -> -1
+ModelNicV2(e) ==
+  LET tc == TypeCode(e.frame)  s == IF tc >= 20 THEN 0 ELSE 2 * e.nica + e.nicbc
+      n == NICv2OfTC(tc, s)  rc == IF n = -1 THEN -1 ELSE NICv2Rc(n, s)  r == e.res.v IN
+  IF rc = -1 THEN IsNone(r[1]) /\ IsNone(r[2])
+  ELSE IsInt(r[1], n) /\ (IF rc = -2 THEN IsNone(r[2]) ELSE NumEq(r[2], rc, 2))
+
+NACpRow(n) == CASE n = 11 -> <<3, 4>> [] n = 10 -> <<10, 15>> [] n = 9 -> <<30, 45>> [] n = 8 -> <<93, NAv>> [] n = 7 -> <<185, NAv>> [] n = 6 -> <<556, NAv>>
+                [] n = 5 -> <<926, NAv>> [] n = 4 -> <<1852, NAv>> [] n = 3 -> <<3704, NAv>> [] n = 2 -> <<7408, NAv>> [] n = 1 -> <<18520, NAv>> [] OTHER -> <<NAv, NAv>>
+ModelNacP(e) == LET r == e.res.v  row == NACpRow(r[1].v) IN QOrNone(r[2], row[1], 1) /\ QOrNone(r[3], row[2], 1)
+\* x 100
+VelRow(n) == CASE n = 1 -> <<1000, 1520>> [] n = 2 -> <<300, 450>> [] n = 3 -> <<100, 150>> [] n = 4 -> <<30, 46>> [] OTHER -> <<NAv, NAv>>
+ModelVel(e) == LET r == e.res.v  row == VelRow(r[1].v) IN QOrNone(r[2], row[1], 100) /\ QOrNone(r[3], row[2], 100)
+\* x 1e7
+SilRow(n) == CASE n = 3 -> <<1, 2>> [] n = 2 -> <<100, 100>> [] n = 1 -> <<10000, 10000>> [] OTHER -> <<NAv, NAv>>
+ModelSil(e) ==
+  LET f == e.frame  n == IF TypeCode(f) = 29 THEN MEField(f, 45, 46) ELSE MEField(f, 51, 52)  row == SilRow(n)  r == e.res.v IN
+  QOrNone(r[1], row[1], 10000000) /\ QOrNone(r[2], row[2], 10000000)
+Drift(ok) == IF ok THEN "ok" ELSE "drift:lookup_value_differs_from_model"
+
+
 \* TC 31 / quality indicators: the category (first element) is the encoded field; bounds are checked for
 \* shape here and for monotonicity by V_monotone over the whole table
 V_version(e) == Guard(e, TypeCode(e.frame) = 31, IF IsInt(e.res, Version31(e.frame)) THEN "ok" ELSE "version_value", "version_guard")
@@ -212,9 +266,9 @@ CatTuple(e, cat, n) == IsTup(e.res, n) /\ IsInt(e.res.v[1], cat) /\ \A k \in 2..
 V_nac_p(e) ==
   LET f == e.frame  tc == TypeCode(f) IN
   Guard(e, tc \in {29, 31},
-        IF CatTuple(e, IF tc = 29 THEN MEField(f, 40, 43) ELSE MEField(f, 45, 48), 3) THEN "ok" ELSE "nac_p_value", "nac_p_guard")
-V_nac_v(e) == Guard(e, TypeCode(e.frame) = 19, IF CatTuple(e, NUCv(e.frame), 3) THEN "ok" ELSE "nac_v_value", "nac_v_guard")
-V_nuc_v(e) == Guard(e, TypeCode(e.frame) = 19, IF CatTuple(e, NUCv(e.frame), 3) THEN "ok" ELSE "nuc_v_value", "nuc_v_guard")
+        IF CatTuple(e, IF tc = 29 THEN MEField(f, 40, 43) ELSE MEField(f, 45, 48), 3) THEN Drift(ModelNacP(e)) ELSE "nac_p_value", "nac_p_guard")
+V_nac_v(e) == Guard(e, TypeCode(e.frame) = 19, IF CatTuple(e, NUCv(e.frame), 3) THEN Drift(ModelVel(e)) ELSE "nac_v_value", "nac_v_guard")
+V_nuc_v(e) == Guard(e, TypeCode(e.frame) = 19, IF CatTuple(e, NUCv(e.frame), 3) THEN Drift(ModelVel(e)) ELSE "nuc_v_value", "nuc_v_guard")
 
 V_sil(e) ==
   LET f == e.frame  tc == TypeCode(f)  r == e.res
@@ -222,14 +276,14 @@ V_sil(e) ==
   Guard(e, tc \in {29, 31},
         IF ~(IsTup(r, 3) /\ BoundOrNone(r.v[1]) /\ BoundOrNone(r.v[2])) THEN "sil_shape"
         ELSE IF ~IsLabel(r.v[3], IF e.version = 2 THEN (IF sup = 0 THEN "hour" ELSE "sample") ELSE "unknown") THEN "sil_supplement_base"
-        ELSE "ok", "sil_guard")
+        ELSE Drift(ModelSil(e)), "sil_guard")
 
 \* position-quality look-ups: total on TC 5..22 except 19 (a velocity message carries no position category)
 PosTC(f) == TypeCode(f) \in (5..18) \cup (20..22)
 LookupShape(e, n) == IsTup(e.res, n) /\ (e.res.v[1].t \in {"i", "n"}) /\ \A k \in 2..n : BoundOrNone(e.res.v[k])
-V_nuc_p(e) == Guard(e, PosTC(e.frame), IF LookupShape(e, 4) THEN "ok" ELSE "nuc_p_total", "nuc_p_guard")
-V_nic_v1(e) == Guard(e, PosTC(e.frame), IF LookupShape(e, 3) THEN "ok" ELSE "nic_v1_total", "nic_v1_guard")
-V_nic_v2(e) == Guard(e, PosTC(e.frame), IF LookupShape(e, 2) THEN "ok" ELSE "nic_v2_total", "nic_v2_guard")
+V_nuc_p(e) == Guard(e, PosTC(e.frame), IF LookupShape(e, 4) THEN Drift(ModelNucP(e)) ELSE "nuc_p_total", "nuc_p_guard")
+V_nic_v1(e) == Guard(e, PosTC(e.frame), IF LookupShape(e, 3) THEN Drift(ModelNicV1(e)) ELSE "nic_v1_total", "nic_v1_guard")
+V_nic_v2(e) == Guard(e, PosTC(e.frame), IF LookupShape(e, 2) THEN Drift(ModelNicV2(e)) ELSE "nic_v2_total", "nic_v2_guard")
 
 \* a whole look-up table observed through the API: e.rows = <<[c |-> category, n |-> bound*den, has |-> 0/1], ...>>
 \* "a higher category never maps to a looser bound"
